@@ -409,9 +409,17 @@ class Front:
                 out = "other"
         else:
             c.user_given = True
-            text, alive = await self.send(c, f"USER {user}")
+            # a client that guesses again on the same connection need not repeat USER: every other
+            # repeated attempt for the user name already on record is a bare PASS
+            c.pass_only = (getattr(c, "pop_user", None) == user) and not getattr(c, "pass_only", False)
+            alive = True
+            if not c.pass_only:
+                text, alive = await self.send(c, f"USER {user}")
+                c.pop_user = user if alive else None
             if alive:
                 text, alive = await self.send(c, f"PASS {pw}".rstrip())
+            if not alive:
+                c.pop_user = None
             low = text.lower()
             if text.startswith("+OK"):
                 out = "ok"
